@@ -10,7 +10,7 @@ import (
 
 // C12 — user-defined aliases of Stack and Condition behave as the native types.
 
-var c12Gen = TreeGen{MaxDepth: 3, MaxWidth: 4, MinWidth: 1, NilLeaves: 10, Conds: 25, CondStackExpr: 55, CondCondExpr: 10,
+var c12Gen = TreeGen{MaxDepth: 3, MaxWidth: 4, MinWidth: 0, NilLeaves: 10, Conds: 25, CondStackExpr: 55, CondCondExpr: 10,
 	IdxOpts: true, Present: true, StackProb: 45}
 
 func c12Tier(tier string) int {
